@@ -13,6 +13,8 @@ import (
 	"strconv"
 	"strings"
 	"sync"
+	"sync/atomic"
+	"time"
 
 	"github.com/siglens/siglens/pkg/ast/pipesearch"
 	"github.com/siglens/siglens/pkg/config"
@@ -667,6 +669,36 @@ func c06pShow(e sutils.CValueEnclosure) (string, bool) {
 	return fmt.Sprintf("?%d", e.Dtype), true
 }
 
+var c06pHangs int32
+
+// c06pRunTimed: c06pRun under a watchdog.  A Fetch that never returns cannot be stopped (the goroutine is abandoned and keeps
+// spinning), so after three of them the rest of the op file is answered "hang-skip" without running the engine code.
+func c06pRunTimed(cmds []c06pCmd, k int, deal [][2]int, rows []c06Row) (c06pPlan, c06Out) {
+	plan := c06pBuild(cmds, k) // for the shape (planning cannot hang: no Fetch)
+	if plan.err != "" {
+		return plan, c06Out{status: "err", msg: plan.err}
+	}
+	if atomic.LoadInt32(&c06pHangs) >= 3 {
+		return plan, c06Out{status: "hang-skip"}
+	}
+	type res struct {
+		p c06pPlan
+		o c06Out
+	}
+	ch := make(chan res, 1)
+	go func() {
+		p, o := c06pRun(cmds, k, deal, rows)
+		ch <- res{p, o}
+	}()
+	select {
+	case r := <-ch:
+		return r.p, r.o
+	case <-time.After(10 * time.Second):
+		atomic.AddInt32(&c06pHangs, 1)
+		return plan, c06Out{status: "hang", msg: "no answer within 10 s"}
+	}
+}
+
 // c06pRun plans the chain under GOMAXPROCS=k, deals the table out and fetches the last DataProcessor until EOF
 func c06pRun(cmds []c06pCmd, k int, deal [][2]int, rows []c06Row) (plan c06pPlan, out c06Out) {
 	defer func() {
@@ -1263,7 +1295,7 @@ func execPlan(line string) Result {
 		return Result{Out: plan.shape, Nontrivial: len(op.cmds) >= 2, Tags: []string{"shape-only", fmt.Sprintf("K=%d", op.k)}}
 	}
 	ref, rok := c06pRefRun(op.cmds, c06pRefTable(op.rows))
-	plan, got := c06pRun(op.cmds, op.k, op.deal, op.rows)
+	plan, got := c06pRunTimed(op.cmds, op.k, op.deal, op.rows)
 	if plan.err != "" {
 		return Result{Out: "err " + plan.err, Tags: []string{"plan-err"}}
 	}
@@ -1329,15 +1361,26 @@ func execPlan(line string) Result {
 	if got.status != "ok" {
 		res.Tags = append(res.Tags, "status="+got.status)
 	}
+	if got.status == "hang-skip" { // not run (the watchdog gave up on this op file): nothing to judge
+		return res
+	}
 	// --- property 1: neither the number of upstream chains nor the batching matters
-	_, base := c06pRun(op.cmds, 1, nil, op.rows)
+	_, base := c06pRunTimed(op.cmds, 1, nil, op.rows)
+	if base.status == "hang-skip" {
+		if got.status == "hang" {
+			res.Fails = append(res.Fails, PropFail{Sig: "plan-hang/" + bott, Msg: fmt.Sprintf("GOMAXPROCS=%d, %d chain(s), dealt %v: %s", op.k, n, op.deal, got.msg)})
+		}
+		return res
+	}
 	baseClass := c06pClass(op.cmds, 1, c06pDeal(nil, op.rows, 1))
 	if a, b := c06pCanon(got, op.cmp), c06pCanon(base, op.cmp); a != b {
 		sig := "plan-parallel/" + bott + "/chains"
 		if n == 1 {
 			sig = "plan-parallel/" + bott + "/batches"
 		}
-		if class == "stats-empty-partial" {
+		if got.status == "hang" || got.status == "hang-skip" {
+			sig = "plan-hang/" + bott
+		} else if class == "stats-empty-partial" {
 			sig = "plan-parallel/stats/empty-partial"
 		} else if class == "sort-merger-order-dropped" {
 			sig = "plan-parallel/sort/order-dropped-limit-kept"
